@@ -59,7 +59,6 @@ func vfC28One(rec *evid.Rec, pathName string, debug bool) {
 			return
 		}
 		n.exportServer.logger.SetOutput(io.Discard)
-		n.exportServer.options.Debug = debug
 		port = n.exportServer.GetPort()
 		stop = func() { n.Unexport(); n.Close() }
 	default:
